@@ -38,6 +38,13 @@ pub fn clock_advance_ms(ms: i64) {
 pub fn clock_reset() {
     shim_fn!("verifenv_clock_reset", extern "C" fn())()
 }
+/// per-thread virtual time: only the calling thread's clock moves
+pub fn clock_thread_advance_ms(ms: i64) {
+    shim_fn!("verifenv_clock_thread_advance_ms", extern "C" fn(i64))(ms)
+}
+pub fn clock_thread_reset() {
+    shim_fn!("verifenv_clock_thread_reset", extern "C" fn())()
+}
 pub fn clock_freeze(epoch_s: i64) {
     shim_fn!("verifenv_clock_freeze", extern "C" fn(i64))(epoch_s)
 }
